@@ -143,3 +143,13 @@ def run(ck, prog):
     _run_pre_config(ck, prog)
     from sa import config
     config.run_rule(ck, prog, set(DIMENSION_FILES))
+
+
+# ------------------------------------------------------------------ generic: the value tested against a bound is the value set to the bound (clamps)
+_run_pre_clamp = run
+
+
+def run(ck, prog):
+    _run_pre_clamp(ck, prog)
+    from sa import clamp
+    clamp.run_rule(ck, prog, set(DIMENSION_FILES))
